@@ -7,6 +7,7 @@ package main
 
 import (
 	"bufio"
+	stdjson "encoding/json"
 	"bytes"
 	"errors"
 	"fmt"
@@ -373,6 +374,15 @@ func c20SubIndent(args []string) {
 				cls := "ok"
 				if ierr != nil {
 					cls = "err"
+				}
+				// the toolchain's encoding/json on the same arguments: same verdict, same bytes
+				var ref bytes.Buffer
+				rerr := stdjson.Indent(&ref, src, prefix, indent)
+				switch {
+				case (rerr == nil) != (ierr == nil):
+					cls = "diff-verdict"
+				case ierr == nil && !bytes.Equal(ref.Bytes(), buf.Bytes()):
+					cls = "diff-output"
 				}
 				fmt.Fprintf(out, "D %d %s %d\n", i, cls, buf.Len())
 			}
